@@ -16,6 +16,7 @@ import (
 	"fmt"
 	"io"
 	"os"
+	"path/filepath"
 	"sort"
 	"sync"
 	"time"
@@ -143,6 +144,41 @@ func equalSystems(a, b *prover.ProvingSystem) string {
 	return "ok"
 }
 
+// readFileCut goes through prover.ReadSystemFromFile (what the CLI commands call) on a file on disk.
+func readFileCut(dir string, file []byte, k int) string {
+	path := filepath.Join(dir, fmt.Sprintf("cut-%d-%d.keys", os.Getpid(), k))
+	if err := os.WriteFile(path, file[:k], 0o644); err != nil {
+		return "cannot write scratch file: " + err.Error()
+	}
+	defer os.Remove(path)
+	type out struct{ res string }
+	ch := make(chan out, 1)
+	go func() {
+		defer func() {
+			if r := recover(); r != nil {
+				ch <- out{fmt.Sprintf("panic %v", r)}
+			}
+		}()
+		ps, err := prover.ReadSystemFromFile(path)
+		switch {
+		case err != nil:
+			ch <- out{"error"}
+		case ps == nil || ps.ConstraintSystem == nil || ps.ProvingKey == nil || ps.VerifyingKey == nil:
+			ch <- out{"no error but an incomplete system"}
+		default:
+			ch <- out{"ok"}
+		}
+	}()
+	select {
+	case o := <-ch:
+		return o.res
+	case <-time.After(120 * time.Second):
+		return "hang"
+	}
+}
+
+var scratchDir string
+
 func cuts(label string, file []byte, s sections, offsets []int, workers int) {
 	total := len(file)
 	sem := make(chan struct{}, workers)
@@ -161,6 +197,28 @@ func cuts(label string, file []byte, s sections, offsets []int, workers int) {
 	for i, k := range offsets {
 		stat["cut:"+label]++
 		emit(fmt.Sprintf("cut\t%d\t%d\t%d\t%d\t%d", total, len(s.pk), len(s.vk), len(s.cs), k), res[i])
+	}
+	// the same cuts through ReadSystemFromFile (file on disk, buffered reader, deferred close):
+	// a sample for big files, every 7th offset plus the section boundaries for small ones
+	if scratchDir != "" {
+		bounds := map[int]bool{0: true, 3: true, 4: true, 7: true, 8: true, 8 + len(s.pk) - 1: true, 8 + len(s.pk): true, 8 + len(s.pk) + len(s.vk) - 1: true,
+			8 + len(s.pk) + len(s.vk): true, total - 1: true, total: true}
+		for i, k := range offsets {
+			if !(bounds[k] || (total < 1<<20 && i%7 == 0) || (total >= 1<<20 && i%9 == 0)) {
+				continue
+			}
+			want := "error"
+			if k == total {
+				want = "ok"
+			}
+			got := readFileCut(scratchDir, file, k)
+			stat["filecut:"+label]++
+			if got != want {
+				emit(fmt.Sprintf("filecut\t%s\t%d\t%d", label, total, k), got)
+			} else {
+				emit(fmt.Sprintf("filecut\t%s\t%d\t%d", label, total, k), "as-expected")
+			}
+		}
 	}
 }
 
@@ -264,6 +322,7 @@ func main() {
 	tiny := flag.Int("tiny", 2, "independent tiny systems (every cut offset enumerated)")
 	real := flag.Bool("real", false, "also a real insertion system (depth 3, batch 2) with cross prove/verify")
 	ncuts := flag.Int("cuts", 30, "random interior cut offsets for the real system")
+	flag.StringVar(&scratchDir, "dir", "", "scratch directory for files read through ReadSystemFromFile (empty: skip)")
 	win := flag.Int("window", 3, "cut offsets within ±window of every section boundary (real system)")
 	flag.Parse()
 	g := gen.New(*seed)
